@@ -38,9 +38,9 @@ fn radix_factor(radix: usize) -> RadixFactor {
 }
 
 /// `RadixN::new` (crate-private type) with the factor list given as plain radixes.
-pub fn radixn_new<T: FftNum>(radixes: &[usize], base_fft: Arc<dyn Fft<T>>) -> Arc<dyn Fft<T>> {
+pub fn radixn_new<T: FftNum>(radixes: &[usize], base_fft: Arc<dyn Fft<T>>) -> impl Fft<T> {
     let factors: Vec<RadixFactor> = radixes.iter().map(|r| radix_factor(*r)).collect();
-    Arc::new(crate::algorithm::RadixN::new(&factors, base_fft))
+    crate::algorithm::RadixN::new(&factors, base_fft)
 }
 
 /// `array_utils::factor_transpose::<T, D>` with the factor list given as (radix, count) pairs.
